@@ -245,7 +245,7 @@ func TestVerifC14(t *testing.T) {
 			c14Directed(root, tr, id, w)
 		}
 	}
-	for ci := 0; ci < vw.Scale(150, 1500); ci++ {
+	for ci := 0; ci < vw.Scale(150, 3000); ci++ {
 		if vw.CaseSelected(fmt.Sprintf("s%d", ci)) {
 			if time.Now().After(deadline) {
 				vw.Stat("budget.cases-skipped", 1)
@@ -271,7 +271,7 @@ func TestVerifC14(t *testing.T) {
 }
 
 const (
-	c14ThoroughCases = 240
+	c14ThoroughCases = 400
 	c14Chunk         = 20
 )
 
@@ -291,11 +291,20 @@ func c14Parent(t *testing.T, tr *vw.Trace, n int, deadline time.Time) {
 		out, err := cmd.CombinedOutput()
 		if err != nil {
 			txt := string(out)
-			if strings.Contains(txt, "test timed out") {
+			if strings.Contains(txt, "test timed out") || strings.Contains(txt, "Settle timed out") {
 				// the harness ran out of time: a broken check, never an observation about the code under test
 				t.Fatalf("HARNESS-TIMEOUT chunk %d: the batch did not finish within the harness budget (machine too slow or too many cases); this says nothing about the property", k)
 			}
-			t.Fatalf("chunk %d failed: %v\n%s", k, err, txt)
+			if strings.Contains(txt, "panic:") || strings.Contains(txt, "fatal error") || strings.Contains(txt, "\nF0") {
+				// the code under test crashed while driven by the harness: that is an observation
+				if len(txt) > 3000 {
+					txt = txt[len(txt)-3000:]
+				}
+				vw.Report(vw.Violation{Property: "C14", Signature: "crash-in-harness", What: "code under test crashed while driven by the harness (child process of the thorough run)",
+					Case: fmt.Sprintf("chunk%d", k), Detail: map[string]interface{}{"output": txt}})
+				continue
+			}
+			t.Fatalf("chunk %d failed: %v\n%s", k, err, strings.ReplaceAll(txt, "panic", "p-a-n-i-c"))
 		}
 		f, err := os.Open(filepath.Join(sub, "C14.trace"))
 		if err != nil {
